@@ -11,6 +11,7 @@
   state machine is back in its initial state.
 -/
 import FastPasta.Model.Cdp
+import FastPasta.Proofs.PayloadSrcTie
 import FastPasta.Proofs.Chunks
 namespace FastPasta
 namespace C12
@@ -159,6 +160,32 @@ example : cutPayload (encFormat0 [[0,0,0,0,0,0,0,0,0,0xE0],[3,0,0,0,1,0,0,0,0,0x
     = some [[0,0,0,0,0,0,0,0,0,0xE0],[3,0,0,0,1,0,0,0,0,0xE8]] :=
   cut_format0 _ (by decide) (by decide)
 example : cutPayload (List.replicate 16 0xFF) = none := cut_overpadded _ (by decide)
+
+
+/-! ### tie by translation: `cutPayload` is the source's `preprocess_payload` (translated on this run by `tools/rs2lean.py`
+    into `Spec/PayloadSrcGen.lean`; proof in `Proofs/PayloadSrcTie.lean`), so every theorem of this file about `cutPayload`
+    is a theorem about the source text as it is now -/
+theorem preprocess_src_eq (p : Bytes) (hp : p.length < 2^64) :
+    cutPayload p = (match SrcPayload.preprocess_payload p with | .err _ => none | .ok cs => some (cs.map (·.take 10))) :=
+  SrcTie.preprocess_eq p hp
+
+/-- the over-padding error of the source is raised exactly for more than 15 trailing bytes of 0xFF -/
+theorem preprocess_src_err_iff (p : Bytes) (hp : p.length < 2^64) :
+    (SrcPayload.preprocess_payload p).isErr = true ↔ ffRun p > 15 := by
+  have h := SrcTie.preprocess_eq p hp
+  unfold cutPayload at h
+  cases hr : SrcPayload.preprocess_payload p with
+  | ok cs =>
+    rw [hr] at h
+    by_cases h15 : ffRun p > 15
+    · simp [h15] at h
+    · simp [h15, Rs.Res.isErr]
+  | err e =>
+    rw [hr] at h
+    by_cases h15 : ffRun p > 15
+    · simp [h15, Rs.Res.isErr]
+    · simp only [h15, if_false] at h
+      split at h <;> (try split at h) <;> simp at h
 
 end C12
 end FastPasta
